@@ -1142,8 +1142,21 @@ class Gen:
             return A.Un('neg', e, t)
         return self.mklit(t, v)
 
+    def empty_do(self):
+        """DO / LOOP UNTIL <true> with an empty body (the bare DO generates
+        no code of its own)."""
+        lit = self.strlit()
+        cond = A.Bin('>=', A.BCall('LEN', [lit], '&'), self.mklit('%', 0),
+                     '%')
+        self.note('empty_bare_do')
+        if self.chance(0.5):
+            return A.Do('loop_until', cond, [])
+        return A.Do('loop_while', A.Un('NOT', A.Paren(cond), '%'), [])
+
     def counted_loop(self, depth):
         """WHILE / DO loop driven by a reserved counter."""
+        if self.p.empty_blocks and self.chance(self.p.empty_blocks * 0.5):
+            return [self.empty_do()]
         c = self.new_scalar(self.pick('%%&'), reserved=True)
         n = self.i(0, self.p.max_iter)
         clv = A.LV(c.name, [], [], c.t)
